@@ -14,6 +14,11 @@ Scenarios
   c  `with scheduler.synchronized():` sections (nested too) on foreign threads while tasks run
   d  2-4 cooperative tasks running generated acquire / try-acquire / release programs on 1-2 recoco Locks
 
+Scheduler configurations: threaded (startInThread=True, as POXCore does; default), "runner": "other" (created with
+startInThread=False on the main thread X, run() called on another thread Y) and "creator" (X == Y); "cfg": "nondefault".
+In scenario a the scheduler thread itself is also a submitter (a handed-over function / a cooperative task handing over
+further functions through Scheduler.callLater, core.call_later and core.raiseLater); in a and b the creator thread is too.
+
 Pinger configurations: "fake" (detsched's counter pinger; pongAll on an empty pinger blocks and is reported) and
 "real" (pox.lib.util's own make_pinger / PipePinger code running over detsched's virtual pipes: util.os is shimmed).
 
@@ -77,7 +82,13 @@ EXHAUSTIVE_SCOPE = {
            "PipePinger: one non-default choice at a forced switch followed by one pre-emption inside PipePinger.ping/pong/pong_all; the same deviation enumeration (<= 1) with the scheduler under test not being recoco.defaultScheduler, and "
            "(threaded hub, base order 0) with util's real PipePinger over virtual pipes; call-later bursts of N in {1, 2, 1023, "
            "1024, 1025, 2047, 2048, 2049} from one thread x inside/outside synchronized() x with/without warm-up x both hubs x "
-           "both base orders, and six two-thread splits, default schedule, real PipePinger",
+           "both base orders, and six two-thread splits, default schedule, real PipePinger; opcode-level switch points inside "
+           "CallLaterTask.callLater / CallLaterTask.run / Scheduler.callLater only: <= 1 deviation for 2 threads x 1 callLater + 1 "
+           "follow-up (with/without warm-up, both hubs); all 27 three-wrapper sequences submitted from a handed-over function and "
+           "from a task, 3 scheduler configurations, default schedule; Scheduler(startInThread=False) run by another thread / by "
+           "its creator: <= 1 deviation for a and b with the creator among the submitters, plus for b (creator != runner) one "
+           "pre-emption of the creator in schedule/fast_schedule followed by one of the running thread in ScheduleTask.run / "
+           "fast_schedule / cycle",
   "thorough": "as quick with <= 2 deviations (<= 3 for a with 2 threads x 1 op, threaded hub, base order 0); d: every triple of "
               "length-3 programs on one lock and every pair of length-3 programs on two locks",
 }
@@ -973,8 +984,14 @@ def _execute(case):
     for cm in obs.patches:
       stack.enter_context(cm)
     stack.enter_context(contextlib.redirect_stdout(buf))
+    main_exc = None
     try:
       res = ds.run(main)
+    except HarnessError:
+      raise
+    except Exception as e:      # an exception of POX that escaped on the main thread (it acts as a foreign thread)
+      main_exc = e
+      res = ds.res
     finally:
       R.defaultScheduler = old_default
   if res.budget_exceeded:
@@ -997,7 +1014,7 @@ def _execute(case):
       raise HarnessError("C07: harness exception on %s: %r" % (who, e)) from e
     out.violations.append({"key": exc_key(e, clause=clause, scn=scn), "msg": "%s: %r" % (who, e)})
   wedged = any(v[0] == "wakeup-lost-in-pinger" for v in obs.viol)   # then the shutdown cannot complete either
-  if wedged:
+  if wedged or main_exc is not None:       # (the main thread died: the rest cannot shut down in an orderly way either)
     res.deadlock = res.stalled = None
   if res.deadlock is not None:
     out.fail("deadlock", "scenario %s: no thread can run and none has a timeout: %r" % (scn, res.deadlock), scn=scn)
@@ -1010,6 +1027,9 @@ def _execute(case):
              "blocked while work was pending" % (scn, res.time_advances[:obs.q_adv]), scn=scn)
   if res.deadlock is None and res.stalled is None:
     judge(out, fin)
+  if main_exc is not None:
+    triage(main_exc, "thread-exception", "thread main")
+    res.deadlock = res.stalled = None      # consequences of the main thread having died
   for name, e in res.thread_errors:
     if isinstance(e, _Bail):
       continue
@@ -1153,7 +1173,7 @@ def _enum_creator_runner(tier):
     pb = {"wakers": [1], "inthread": 0, "creator": 1}
     for runner in ("other", "creator"):
       for hub in (True, False):
-        for base in (0, 1):
+        for base in ((0,) if tier == "quick" else (0, 1)):
           for scn, p in (("a", pa), ("b", pb)):
             for c in _dev_cases(scn, p, hub, base, 1, runner=runner):
               yield c
@@ -1168,7 +1188,8 @@ def _enum_creator_runner(tier):
         for devs1 in firsts:
           last = max(devs1)
           for d in _execute(mk(devs1))[1].decisions:
-            if d["k"] > last and not d.get("frozen") and d["kind"] == "line" and d["thread"] == "Y":
+            if d["k"] > last and not d.get("frozen") and d["kind"] == "line" and d["thread"] == "Y" and (
+                tier != "quick" or d["site"].startswith(("ScheduleTask.run", "Scheduler.fast_schedule", "Scheduler.cycle"))):
               for v in range(1, d["n"]):
                 nd = dict(devs1)
                 nd[d["k"]] = v
@@ -1291,10 +1312,13 @@ def _strategy(tier):
 
   def s():
     op = st.sampled_from(["cl", "cl", "co", "rl"])
-    pa = st.fixed_dictionaries({"threads": st.lists(st.lists(op, min_size=1, max_size=3), min_size=1, max_size=3),
-                                "tail": st.sampled_from([0, 0, 1, 2])})
+    nop = st.one_of(op, op, op, st.tuples(st.just("n"), st.lists(op, min_size=1, max_size=4)).map(list))
+    pa = st.fixed_dictionaries({"threads": st.lists(st.lists(nop, min_size=1, max_size=3), min_size=1, max_size=3),
+                                "tail": st.sampled_from([0, 0, 1, 2]), "creator": st.sampled_from([0, 0, 1, 2]),
+                                "task": st.one_of(st.just([]), st.lists(op, min_size=1, max_size=4))})
     pb = st.fixed_dictionaries({"wakers": st.lists(st.integers(1, 3), min_size=1, max_size=3), "inthread": st.integers(0, 2),
-                                "z": st.sampled_from([0, 1, 1, 2]), "wait": st.sampled_from(["F", "S"])})
+                                "z": st.sampled_from([0, 1, 1, 2]), "wait": st.sampled_from(["F", "S"]),
+                                "creator": st.sampled_from([0, 0, 1, 2])})
     sec = st.one_of(st.integers(1, 3), st.integers(1, 3),
                     st.tuples(st.integers(2, 3), st.just("in"), st.integers(0, 1)).map(list),
                     st.tuples(st.integers(1, 3), st.just("out"), st.just(0)).map(list))
@@ -1309,7 +1333,8 @@ def _strategy(tier):
 
     def case(scn, p, maxgap, op=False, pinger=None):
       return st.fixed_dictionaries({"scn": st.just(scn), "hub": st.booleans(), "p": p, "sched": _s_sched(maxgap, op),
-                                    "pinger": pinger if pinger is not None else st.sampled_from(["fake", "real"])})
+                                    "pinger": pinger if pinger is not None else st.sampled_from(["fake", "real"]),
+                                    "runner": st.sampled_from([None, None, None, "other", "creator"])})
     bop = st.one_of(op, op, st.tuples(st.just("b"), st.sampled_from(BURSTS + [3, 511, 1024])).map(list))
     pburst = st.fixed_dictionaries({"threads": st.lists(st.lists(bop, min_size=1, max_size=2), min_size=1, max_size=2),
                                     "hold": st.booleans(), "warm": st.booleans(), "tail": st.sampled_from([0, 1, 2])})
